@@ -86,6 +86,14 @@ var dicts = []dictT{
 	{"invalid-non-ascii", map[string]string{"É": "x"}},
 	{"invalid-trailing-newline", map[string]string{"A\n": "x"}},
 	{"valid-and-invalid", map[string]string{"A": "va", "B!": "x"}},
+	// dictionaries that a lossy digest of a dictionary (names only, values only, names and values run
+	// together, sorted entries) cannot tell apart from one another or from the ones above
+	{"A-other-value", map[string]string{"A": "vb"}},
+	{"B-same-value", map[string]string{"B": "va"}},
+	{"A=1,B=2", map[string]string{"A": "1", "B": "2"}},
+	{"A=1B2", map[string]string{"A": "1B2"}},
+	{"A1=B2", map[string]string{"A1": "B2"}},
+	{"A=2,B=1", map[string]string{"A": "2", "B": "1"}},
 }
 
 func baseLayout() intoto.Layout {
@@ -122,12 +130,38 @@ type Case struct {
 	Text     string `json:"text"`
 	Dict     string `json:"dict"`
 	Choices  []int  `json:"choices,omitempty"`
+	Before   string `json:"before,omitempty"` // dictionary of an earlier call in the same process
 }
 
 func fullAt(label string) bool { return strings.HasPrefix(label, "SubstituteParameters#") }
 
 // one execution under a given dictionary order
 func once(pos, text string, d dictT, ch *mcx.Chooser) (obs, sig string) {
+	return onceAfter(nil, pos, text, d, ch)
+}
+
+// onceAfter: like once, but an unrelated call with dictionary before (on another copy of the same
+// layout) has been made earlier in the process; the result must not depend on it.
+func onceAfter(before *dictT, pos, text string, d dictT, ch *mcx.Chooser) (obs, sig string) {
+	if before != nil {
+		prior := baseLayout()
+		for _, l := range gen.StringLeaves(&prior) {
+			if l.Path == pos {
+				l.Set(text)
+			}
+		}
+		bd := map[string]string{}
+		for k, v := range before.D {
+			bd[k] = v
+		}
+		intoto.SubstituteParameters(prior, bd)
+		defer func() {
+			if sig != "" {
+				sig += "|after-a-call-with-another-dictionary"
+				obs += " (after a call with dictionary " + before.Name + ")"
+			}
+		}()
+	}
 	in := baseLayout()
 	var leaf *gen.Leaf
 	ls := gen.StringLeaves(&in)
@@ -255,12 +289,52 @@ func run(c *mcx.Ctx) {
 				c.Outcome(cls)
 				if firstSig != "" {
 					c.Violation(firstSig, fmt.Sprintf("SubstituteParameters with text %q at %s and dictionary %s %v", text, pos, d.Name, d.D),
-						Case{pos, text, d.Name, firstCh}, firstObs)
+						Case{Position: pos, Text: text, Dict: d.Name, Choices: firstCh}, firstObs)
 				} else if len(outs) > 1 {
-					c.Violation("C18|order-dependent", fmt.Sprintf("result depends on dictionary order: text %q at %s, dictionary %s", text, pos, d.Name), Case{pos, text, d.Name, nil}, "differs")
+					c.Violation("C18|order-dependent", fmt.Sprintf("result depends on dictionary order: text %q at %s, dictionary %s", text, pos, d.Name), Case{Position: pos, Text: text, Dict: d.Name}, "differs")
 				}
 				if c.WantSample() && n%2311 == 17 {
 					c.Sample(map[string]any{"position": pos, "text": text, "dictionary": d.D, "orders": ex.Executions, "reference_result": refSubstitute(text, d.D)})
+				}
+			}
+		}
+	}
+	histories(c, positions, &n)
+}
+
+// histories: every ordered pair of valid dictionaries, the first used in an earlier call of the same
+// process; every text at one step position and one inspection position.
+func histories(c *mcx.Ctx, positions []string, n *int64) {
+	var hp []string
+	for _, want := range []string{".Steps[", ".Inspect["} {
+		for _, p := range positions {
+			if strings.HasPrefix(p, want) && isTarget(p) {
+				hp = append(hp, p)
+				break
+			}
+		}
+	}
+	c.Note("history_positions", hp)
+	for _, pos := range hp {
+		for _, text := range texts {
+			for i := range dicts {
+				for _, d := range dicts {
+					if !validDict(dicts[i].D) || !validDict(d.D) || dicts[i].Name == d.Name {
+						continue
+					}
+					*n++
+					if !c.Mine(*n) {
+						continue
+					}
+					obs, sig := onceAfter(&dicts[i], pos, text, d, nil)
+					c.Impl(2)
+					c.Step(1, 2)
+					c.Case(strings.Contains(text, "{") && len(d.D) > 0)
+					c.Outcome("history:" + map[bool]string{true: "ok", false: "violation"}[sig == ""])
+					if sig != "" {
+						c.Violation(sig, fmt.Sprintf("SubstituteParameters with text %q at %s and dictionary %s %v, after a call with dictionary %s %v", text, pos, d.Name, d.D, dicts[i].Name, dicts[i].D),
+							Case{Position: pos, Text: text, Dict: d.Name, Before: dicts[i].Name}, obs)
+					}
 				}
 			}
 		}
@@ -273,8 +347,17 @@ func replay(c *mcx.Ctx, raw json.RawMessage) (string, string) {
 	if err := json.Unmarshal(raw, &cs); err != nil {
 		return "bad case: " + err.Error(), ""
 	}
+	var before *dictT
+	for i := range dicts {
+		if cs.Before != "" && dicts[i].Name == cs.Before {
+			before = &dicts[i]
+		}
+	}
 	for _, d := range dicts {
 		if d.Name == cs.Dict {
+			if before != nil {
+				return onceAfter(before, cs.Position, cs.Text, d, nil)
+			}
 			return once(cs.Position, cs.Text, d, mcx.NewReplay(cs.Choices, fullAt))
 		}
 	}
@@ -284,8 +367,8 @@ func replay(c *mcx.Ctx, raw json.RawMessage) (string, string) {
 func init() {
 	mcx.Register(&mcx.Driver{
 		ID: "C18", Run: run, Replay: replay,
-		Rule: "full product: position (every string leaf of a 2-step / 2-inspection layout found by a reflective walk: the four target fields at every index and every other field) x text (30-element catalogue: adjacent, nested-looking, unterminated, unknown, case-differing markers, values, escapes) x dictionary (20-element catalogue: 0-6 entries, values containing markers, empty values, seven invalid names), " +
-			"each under every iteration order of the range over the dictionary (all n! for n<=4, first-element x direction above). A case = (position,text,dictionary), distinct by construction; non-trivial = text contains '{' and the dictionary is non-empty. states = cases, transitions = executions + choice points.",
+		Rule: "full product: position (every string leaf of a 2-step / 2-inspection layout found by a reflective walk: the four target fields at every index and every other field) x text (30-element catalogue: adjacent, nested-looking, unterminated, unknown, case-differing markers, values, escapes) x dictionary (26-element catalogue: 0-6 entries, values containing markers, empty values, seven invalid names, six that a lossy digest of a dictionary confuses), " +
+			"each under every iteration order of the range over the dictionary (all n! for n<=4, first-element x direction above). Then two-call histories: every ordered pair of distinct valid dictionaries x every text at one step and one inspection position, the first dictionary used in an earlier call of the same process. A case = (position,text,dictionary[,earlier dictionary]), distinct by construction; non-trivial = text contains '{' and the dictionary is non-empty. states = cases, transitions = executions + choice points.",
 		Assumptions: []string{"reference: one left-to-right scan, '{' + [A-Za-z0-9_-]+ + '}' replaced iff the name is supplied, applied to expected_materials, expected_products, expected_command, run only"},
 	})
 }
